@@ -1,6 +1,6 @@
 // Kani harnesses for crates/erbium-core/src/radv/config.rs (C19: the router-advertisement section of the
-// configuration is parsed totally).  Yaml values are built by hand; mappings are either empty (no insert
-// needed) or hold one or two CONCRETE string keys (the SipHash of a concrete key folds to a constant).
+// configuration is parsed totally).  Yaml values are built by hand; mappings can only be EMPTY (see the note
+// at the end of the file).
 #[cfg(kani)]
 mod k {
     use super::super::*;
@@ -67,25 +67,21 @@ mod k {
         std::mem::forget(y);
     }
 
-    /// VERIF: {"p":"C19","tier":"quick","fns":["radv::config::parse_prefix","radv::config::parse_rdnss","radv::config::parse_dnssl","radv::config::parse_pref64","radv::config::parse_interface","radv::config::parse","radv::config::parse_domain","config::type_to_name"],"bounds":"each parser on one value of every non-mapping Yaml variant (Real, Integer(any), String, Boolean(any), `[~]`, `[\"a\",\"b\"]`, Alias(any), Null, BadValue); every array NON-empty","oracle":"Err(InvalidConfig) (parse_domain: string => Ok(Some), null => Ok(None)); never a panic","stubs":["alloc::fmt::format -> empty string (message text only)"],"covers":2,"unwind":6}
+    /// VERIF: {"p":"C19","tier":"quick","fns":["radv::config::parse_prefix","radv::config::parse_rdnss","radv::config::parse_dnssl","radv::config::parse_pref64","radv::config::parse_interface","radv::config::parse","radv::config::parse_domain","config::type_to_name"],"bounds":"each parser on one value, one after the other, of every non-mapping Yaml variant (Real, Integer(any), String, Boolean(any), `[~]`, `[\"a\",\"b\"]`, Alias(any), Null, BadValue); every array NON-empty","oracle":"Err(InvalidConfig) (parse_domain: string => Ok(Some), null => Ok(None)); never a panic","stubs":["alloc::fmt::format -> empty string (message text only)"],"covers":1,"unwind":6}
     #[kani::proof]
     #[kani::unwind(6)]
     #[kani::stub(alloc::fmt::format, empty_format)]
     fn c19_radv_parsers_non_mapping() {
-        let k: u8 = kani::any();
-        kani::cover!(k == 1, "integer where a mapping is expected");
-        kani::cover!(k == 5, "list where a mapping is expected");
-        match k {
-            0 => non_hash_on(KIND_REAL),
-            1 => non_hash_on(KIND_INT),
-            2 => non_hash_on(KIND_STR),
-            3 => non_hash_on(KIND_BOOL),
-            4 => non_hash_on(KIND_ARR_NULL),
-            5 => non_hash_on(KIND_ARR_STRS),
-            6 => non_hash_on(KIND_ALIAS),
-            7 => non_hash_on(KIND_NULL),
-            _ => non_hash_on(KIND_BAD),
-        }
+        non_hash_on(KIND_REAL);
+        non_hash_on(KIND_INT);
+        non_hash_on(KIND_STR);
+        non_hash_on(KIND_BOOL);
+        non_hash_on(KIND_ARR_NULL);
+        non_hash_on(KIND_ARR_STRS);
+        non_hash_on(KIND_ALIAS);
+        non_hash_on(KIND_NULL);
+        non_hash_on(KIND_BAD);
+        kani::cover!(true, "every call returned");
     }
 
     /// VERIF: {"p":"C19","tier":"quick","fns":["radv::config::parse_prefix","radv::config::parse_rdnss","radv::config::parse_dnssl","radv::config::parse_pref64","radv::config::parse_interface","radv::config::parse","radv::config::parse_domain","config::type_to_name"],"bounds":"each parser on the empty sequence `[]` (e.g. `router-advertisements: { eth0: [] }`, `pref64: []`, `prefixes: [[]]`)","oracle":"Err(InvalidConfig), never a panic","stubs":["alloc::fmt::format -> empty string (message text only)"],"covers":1,"unwind":6}
@@ -143,123 +139,35 @@ mod k {
         std::mem::forget(y);
     }
 
-    // ---- mappings with one / two concrete keys -----------------------------------------------------------
-    fn hash1(k: &str, v: Yaml) -> Yaml {
-        let mut h = yaml_rust::yaml::Hash::new();
-        h.insert(Yaml::String(String::from(k)), v);
-        Yaml::Hash(h)
-    }
-    fn hash2(k1: &str, v1: Yaml, k2: &str, v2: Yaml) -> Yaml {
-        let mut h = yaml_rust::yaml::Hash::new();
-        h.insert(Yaml::String(String::from(k1)), v1);
-        h.insert(Yaml::String(String::from(k2)), v2);
-        Yaml::Hash(h)
-    }
-    fn ascii<const N: usize>() -> String {
-        let b: [u8; N] = kani::any();
-        let mut i = 0;
-        while i < N {
-            kani::assume(b[i] < 128);
-            i += 1;
-        }
-        String::from(std::str::from_utf8(&b).unwrap())
-    }
-
-    /// VERIF: {"p":"C19","tier":"thorough","fns":["radv::config::parse_prefix","config::parse_duration","config::parse_boolean","config::parse_string_prefix6"],"bounds":"a `prefixes` entry with exactly one key, none of them a usable `prefix`: {valid: <any i64>}, {on-link: <any bool>}, {prefix: ~}","oracle":"Ok or Err(InvalidConfig), never a panic","stubs":["alloc::fmt::format -> empty string (message text only)","std::hash::RandomState::new -> fixed keys"],"covers":1,"unwind":12}
+    // ---- is an accepted pref64 prefix safe to advertise? ---------------------------------------------------
+    /// VERIF: {"p":"C19","tier":"quick","fns":["radv::icmppkt::serialise","radv::icmppkt::serialise_router_advertisement (PREF64 option)"],"bounds":"router advertisement carrying one PREF64 option whose prefix length is ANY u8, all 2^128 prefixes, lifetime 600 s: parse_pref64 copies `prefixlen` from str_prefix6, which stores the unvalidated str::parse::<u8>() result (natively confirmed: `pref64: {prefix: 64:ff9b::/16}` loads), and radv::build_announcement hands it to the serialiser unchanged (radv/mod.rs:262-268). str_prefix6 itself cannot be run under CBMC (str::split)","oracle":"serialising the periodic router advertisement of an ACCEPTED configuration never panics / underflows","covers":2,"unwind":20}
     #[kani::proof]
-    #[kani::unwind(12)]
-    #[kani::stub(alloc::fmt::format, empty_format)]
-    #[kani::stub(std::hash::RandomState::new, fixed_random_state)]
-    fn c19_radv_parse_prefix_without_prefix_key() {
-        let w: u8 = kani::any();
-        kani::cover!(w == 0xA5, "reached");
-        let y = match w {
-            0 => hash1("valid", Yaml::Integer(kani::any())),
-            1 => hash1("on-link", Yaml::Boolean(kani::any())),
-            _ => hash1("prefix", Yaml::Null),
-        };
-        let r = parse_prefix("prefixes", &y);
-        assert!(matches!(r, Ok(_) | Err(Error::InvalidConfig(_))), "parse_prefix: a value or InvalidConfig");
-        std::mem::forget(r);
-        std::mem::forget(y);
+    #[kani::unwind(20)]
+    fn c19_radv_pref64_any_len_is_safe_to_advertise() {
+        use crate::radv::icmppkt;
+        let len: u8 = kani::any();
+        let prefix = std::net::Ipv6Addr::from(kani::any::<u128>());
+        kani::cover!(len == 96, "the usual /96");
+        kani::cover!(len == 200, "over-long");
+        let mut options = icmppkt::NDOptions::default();
+        options.add_option(icmppkt::NDOptionValue::Pref64((std::time::Duration::from_secs(600), len, prefix)));
+        let ra = icmppkt::Icmp6::RtrAdvert(icmppkt::RtrAdvertisement {
+            hop_limit: 64,
+            flag_managed: false,
+            flag_other: false,
+            lifetime: std::time::Duration::from_secs(1800),
+            reachable: std::time::Duration::from_secs(0),
+            retrans: std::time::Duration::from_secs(0),
+            options,
+        });
+        let wire = icmppkt::serialise(&ra);
+        assert!(wire.len() == 16 + 16, "RA header + one 16-octet PREF64 option");
+        std::mem::forget(wire);
+        std::mem::forget(ra);
     }
 
-    fn prefix_entry<const N: usize>() -> Option<u8> {
-        let mut s = String::from("fd00::/");
-        s.push_str(&ascii::<N>());
-        let y = hash2("prefix", Yaml::String(s), "valid", Yaml::Integer(kani::any()));
-        let r = parse_prefix("prefixes", &y);
-        assert!(matches!(r, Ok(Some(_)) | Err(Error::InvalidConfig(_))), "parse_prefix: a prefix or InvalidConfig");
-        let mut acc = None;
-        if let Ok(Some(p)) = &r {
-            assert!(p.addr == std::net::Ipv6Addr::new(0xfd00, 0, 0, 0, 0, 0, 0, 0) && p.onlink && p.autonomous, "address and defaults");
-            assert!(p.prefixlen <= 128, "an advertised IPv6 prefix has a length of at most 128 (RFC 4861 4.6.2: 0..128)");
-            acc = Some(p.prefixlen);
-        }
-        std::mem::forget(r);
-        std::mem::forget(y);
-        acc
-    }
-
-    /// VERIF: {"p":"C19","tier":"thorough","fns":["radv::config::parse_prefix","config::parse_string_prefix6","config::str_prefix6","config::parse_duration"],"bounds":"`prefixes` entry {prefix: \"fd00::/\" + every ASCII string of length 1,2,3, valid: <any i64>}","oracle":"Ok(prefix) or Err(InvalidConfig), never a panic; an accepted prefix length is a valid IPv6 prefix length (<= 128) since it is copied verbatim into the Prefix Information option","stubs":["alloc::fmt::format -> empty string (message text only)","std::hash::RandomState::new -> fixed keys"],"covers":1,"unwind":16}
-    #[kani::proof]
-    #[kani::unwind(16)]
-    #[kani::stub(alloc::fmt::format, empty_format)]
-    #[kani::stub(std::hash::RandomState::new, fixed_random_state)]
-    fn c19_radv_parse_prefix_accepted_lengths() {
-        let n: u8 = kani::any();
-        let acc = match n {
-            0 => prefix_entry::<1>(),
-            1 => prefix_entry::<2>(),
-            _ => prefix_entry::<3>(),
-        };
-        kani::cover!(n == 1 && acc == Some(64), "fd00::/64 accepted");
-    }
-
-    /// VERIF: {"p":"C19","tier":"thorough","fns":["radv::config::parse_interface","config::parse_duration","config::parse_num::<u8>","config::parse_num::<u32>"],"bounds":"interface mapping with exactly one key out of {hop-limit, mtu, lifetime, reachable, retransmit, max-router-advertisement-interval} whose value is Yaml::Integer(any i64)","oracle":"Ok or Err(InvalidConfig), never a panic; hop-limit accepted exactly in 0..=255, mtu exactly in 0..=2^32-1, max interval exactly in 4..=1800 s (the bounds the code's own messages quote from RFC 4861 6.2.1)","stubs":["alloc::fmt::format -> empty string (message text only)","std::hash::RandomState::new -> fixed keys"],"covers":2,"unwind":12}
-    #[kani::proof]
-    #[kani::unwind(12)]
-    #[kani::stub(alloc::fmt::format, empty_format)]
-    #[kani::stub(std::hash::RandomState::new, fixed_random_state)]
-    fn c19_radv_parse_interface_one_integer_key() {
-        let w: u8 = kani::any();
-        let i: i64 = kani::any();
-        let y = match w {
-            0 => hash1("hop-limit", Yaml::Integer(i)),
-            1 => hash1("mtu", Yaml::Integer(i)),
-            2 => hash1("lifetime", Yaml::Integer(i)),
-            3 => hash1("reachable", Yaml::Integer(i)),
-            4 => hash1("retransmit", Yaml::Integer(i)),
-            _ => hash1("max-router-advertisement-interval", Yaml::Integer(i)),
-        };
-        let r = parse_interface("eth0", &y);
-        assert!(matches!(r, Ok(Some(_)) | Err(Error::InvalidConfig(_))), "parse_interface: an interface or InvalidConfig");
-        kani::cover!(w == 0 && r.is_ok(), "hop-limit accepted");
-        kani::cover!(w == 5 && r.is_ok(), "max interval accepted");
-        match w {
-            0 => assert!(r.is_ok() == (0..=255).contains(&i), "hop-limit is an octet"),
-            1 => assert!(r.is_ok() == (0..=u32::MAX as i64).contains(&i), "mtu is a u32"),
-            2 | 3 | 4 => (),
-            _ => assert!(r.is_ok() == (4..=1800).contains(&i), "max-router-advertisement-interval accepted exactly within 4..=1800 s"),
-        }
-        std::mem::forget(r);
-        std::mem::forget(y);
-    }
-
-    /// VERIF: {"p":"C19","tier":"thorough","fns":["radv::config::parse_interface","config::parse_duration"],"bounds":"interface mapping {min-router-advertisement-interval: <any i64>}","oracle":"never a panic; accepted exactly within 3..=1350 s: the two error messages of the code itself say 'cannot be less than 3s' and 'cannot be larger than 1350s per RFC4861 section 6.2.1' (functional reading of 'a configuration or a DESCRIPTIVE error'; beyond plain totality)","stubs":["alloc::fmt::format -> empty string (message text only)","std::hash::RandomState::new -> fixed keys"],"covers":2,"unwind":12}
-    #[kani::proof]
-    #[kani::unwind(12)]
-    #[kani::stub(alloc::fmt::format, empty_format)]
-    #[kani::stub(std::hash::RandomState::new, fixed_random_state)]
-    fn c19_radv_min_interval_range() {
-        let i: i64 = kani::any();
-        let y = hash1("min-router-advertisement-interval", Yaml::Integer(i));
-        let r = parse_interface("eth0", &y);
-        assert!(matches!(r, Ok(Some(_)) | Err(Error::InvalidConfig(_))), "parse_interface: an interface or InvalidConfig");
-        kani::cover!(i == 2 && r.is_err(), "2 s refused");
-        kani::cover!(i == 1350 && r.is_ok(), "1350 s accepted");
-        assert!(r.is_ok() == (3..=1350).contains(&i), "min-router-advertisement-interval accepted exactly within 3..=1350 s");
-        std::mem::forget(r);
-        std::mem::forget(y);
-    }
+    // NOT REACHABLE (measured): any mapping with at least one entry.  yaml_rust's Hash is a LinkedHashMap over
+    // std's HashMap; one `insert` of one CONCRETE key (RandomState stubbed) does not finish within 900 s of CBMC
+    // time, so parsers that iterate over a populated mapping (parse_prefix/parse_interface/parse_pref64/parse_rdnss/parse_dnssl with keys) cannot be driven
+    // from here.  The YAML-level behaviour of those paths was confirmed natively instead (see the report).
 }
